@@ -8,6 +8,7 @@
 (*   {"ev":"in","r","s","lp","dir","totun","table"}                        *)
 (*   {"ev":"err","from","code","r","s","table"}                            *)
 (*   {"ev":"tick"|"jump"|"clean"|"heal","table"}                           *)
+(*   {"ev":"hello","r","table"}   a hello exchange with router r completed *)
 (* The cool-down state of the error handler is not logged: TLC infers it.  *)
 (* Which similar entry an outbound flow inherits from is Go's map order:   *)
 (* the spec's Out allows every candidate, the log says which one it was.   *)
@@ -53,6 +54,7 @@ Step(i) ==
   \/ /\ Ev.ev = "jump" /\ CT(i)!Jump
   \/ /\ Ev.ev = "clean" /\ CT(i)!Clean
   \/ /\ Ev.ev = "heal" /\ CT(i)!Heal
+  \/ /\ Ev.ev = "hello" /\ CT(i)!Hello(Ev.r)
 
 TraceNext == /\ l <= Len(Trace)
              /\ l' = l + 1
